@@ -10,3 +10,7 @@ package aws_identity_cert
 // contract, in cmd/keymasterd, says that it signs the window it is given).
 //@ func makeCertificateTemplate
 //@   ensures ret1 == nil ==> ret0 != nil && timeNanos(ret0.NotBefore) == nowNanos() && timeNanos(ret0.NotAfter) == nowNanos() + 86400000000000 && !ret0.IsCA   #C03.cloud-role-template-24h @C03
+
+// ---- C10: whatever body is posted, the cloud-role request handler does not panic ---------------------------------
+//@ func (*Issuer).requestHandler
+//@   nopanic kinds typeassert nilresult index slice divzero @C10
